@@ -432,19 +432,13 @@ def length_forms(ctx, rep, rule):
     TAG = ("arg", 2)
 
     def cell(lt128, lt256):
+        vr = ("range", 0, 127) if lt128 else (("range", 128, 255) if lt256 else ("range", 256, cells.INF))
+
         def ev(t):
-            if t[0] == "bin" and t[1] == "Lt" and t[2] == V and t[3][0] == "const":
-                c = t[3][1]
-                if c == 128:
-                    return 1 if lt128 else 0
-                if c == 256:
-                    return 1 if lt256 else 0
-            if t[0] == "bin" and t[1] in ("Le",) and t[2] == V and t[3][0] == "const":
-                c = t[3][1]
-                if c == 127:
-                    return 1 if lt128 else 0
-                if c == 255:
-                    return 1 if lt256 else 0
+            # the length operand ranges over the cell; every comparison with a constant (either orientation, range
+            # patterns of a `match`) is then decided by interval evaluation
+            if t == V:
+                return vr
             # ensure_size succeeds
             if t[0] == "discr" and flow.mentions(t, lambda s: s[0] == "call" and (s[1] or "").endswith("::branch")):
                 return 0
@@ -691,5 +685,35 @@ def hdr_reject(ctx, rep, rule):
                       "the header parser rejects input because of the value of an octet (%s is %s): definite-length headers the "
                       "encoder writes (e.g. a zero low length octet in 82 01 00) would be refused" % (flow.fmt(g.term)[:120], pol),
                       body.loc(g.line), obligation=True)
-    if n < 4:
-        rep.violation(rule, "floor", "only %d guarded error exits found in BerHeader::from_ber, floor is 4" % n)
+    if n < 2:
+        rep.violation(rule, "floor", "only %d guarded error exits found in BerHeader::from_ber, floor is 2" % n)
+
+
+def oid_print(ctx, rep, rule):
+    """BER -> text of the first octet: the two arcs printed for it satisfy 40*x + y == octet and y <= 39 for every octet
+    below 120 (first arc 0..2).  Decided by the num engine with trace partitioning on String::try_from(&SnmpOid): the
+    relation is checked on every arm that computes the pair (quotient/remainder by 40, or a hand-written split)."""
+    facts = ctx.facts
+    path = "ber::objectid::<impl std::convert::TryFrom<&ber::objectid::SnmpOid<'_>> for std::string::String>::try_from"
+    body = facts.body(path)
+    if body is None:
+        rep.missing(rule, "String::try_from(&SnmpOid)")
+        return
+    rep.note_analysed("functions", [path])
+    res = numrun.run(ctx)
+    n = 0
+    for p, o in res.obligations({path}):
+        if o["kind"] != "probe":
+            continue
+        if o["key"].endswith("values-tracked"):
+            rep.inconclusive(rule, "String::try_from(&SnmpOid)|probe", "the first octet or the two printed values could not be tracked through this shape "
+                             "of the conversion: the arc relation is not decided", body.loc(o["line"]))
+            n += 1
+            continue
+        n += 1
+        rep.check(rule, "String::try_from(&SnmpOid)|%s" % o["key"], o["ok"], "holds on every path to the first write!()",
+                  "the text printed for the first octet is not (octet / 40, octet %% 40) for every octet below 120: %s (%s)" % (o["key"].split("|")[-1], o["detail"]),
+                  body.loc(o["line"]), obligation=True)
+    if n == 0:
+        rep.inconclusive(rule, "String::try_from(&SnmpOid)|probe", "the first write!() of two values was not found: the conversion was restructured and "
+                         "the arc relation is not decided", body.loc())
